@@ -18,7 +18,7 @@ func init() {
 		Rules: map[string]string{
 			"R1": "continue-handler structure: pause iff pause predicate; else set up GameCount+1 under the auto-open predicate; no silent path",
 			"R2": "predicate definitions (truth tables): ShouldPause, auto-open, alive",
-			"R3": "handler always scheduled: continue step returns delay(handler); delay runs the handler unless cancelled",
+			"R3": "handler always scheduled: continue step returns delay(handler); delay runs the handler unless cancelled; every other exit of the continue step returns a value known to be an error",
 			"R4": "no silent drop in the open-game callback unless excluded by the set-up guard (participants provenance)",
 			"R6": "the open-game gate is constructed with a positive time limit (constant, or guarded > 0), so the 'or the open-game timeout elapses' arm exists",
 			"R5": "the participants handed to set-up are the whole list of settled participants that still have chips, passed settle → continue → handler unchanged",
